@@ -25,6 +25,7 @@ claimed={
 "C17":("R","exploration","(a) The real reload loop of the binary (app.handleDefinitionChanges, watch mode, ticker on the fake clock) next to an editor that rewrites real YAML files: single-field edits chosen by reflection over PipelineDef/TaskDef, written atomically or torn with polls in between, and invalid edits; after each completed edit and more than one poll interval the installed definitions must equal what the files say; they must be valid at every step; invalid files must leave the installed definitions unchanged. (b) Equals on reflection-generated single-field differences and the load result of valid file sets are exercised by direct input generation; this part is not simulation and is counted separately."),
 "C18":("C","exploration","The real TaskRunner, PgidExecutor, interpreter and child processes inside the bubble, job/stage interleaving decided by the tape: each command reports the environment it sees (through built-ins and through an executed /bin/sh) and renders typed job variables; compared with the precedence task > pipeline > process and with the variables of its own job. Scenario-replayable only."),
 "C19":("C","exploration","Same engine: tasks write known payloads (empty .. 4 MiB, partial lines, multi-byte text around chunk sizes, interleaved streams) from several jobs and tasks at once through the real FileOutputStore; the log store and GET /job/logs must return exactly those bytes per job, task and stream. Scenario-replayable only."),
+"C20":("P","exploration","Real clock, real kernel: seeded process trees (background jobs, pipes, nested shells, SIGINT-ignoring and stdio-detached members) started by the real runner, canceled at seeded instants or ended by a forced shutdown; /proc is searched for marked processes once the job is reported finished. Weakest check of the set: executions are not controlled by the simulator, a violation is reported only if three executions of the scenario all show it. One open known finding (F10)."),
 }
 extra={}
 try:
@@ -49,6 +50,7 @@ engines=[{"name":"A","path":"sim/","serves_properties":[c for c in sorted(claime
 engines.append({"name":"B","path":"sim/store_engine.go, cmd/verifctl/b2.go, cmd/storehelper","serves_properties":["C09"],"kind_free_text":"B1: in-bubble seeded interleaving of savers/loaders/crash points over the real JsonDataStore; B2: real helper process under strace fault injection (SIGKILL at every syscall, ENOSPC at every write)"})
 engines.append({"name":"R","path":"sim/reload_engine.go","serves_properties":["C17"],"kind_free_text":"real reload loop + real YAML files + fake clock; reflection-driven editor"})
 engines.append({"name":"C","path":"sim/real_engine.go","serves_properties":["C18","C19"],"kind_free_text":"engine A's scheduler around the real task runner and real child processes (in-bubble); scenario-replayable"})
+engines.append({"name":"P","path":"sim/proc_engine.go","serves_properties":["C20"],"kind_free_text":"real-clock runs of seeded process-tree scenarios (no simulated time, no controlled interleaving)"})
 engines+=extra.get("_engines",[])
 man={"version":1,"setup_cmd":"./setup.sh",
  "hooks":{"guard":"verif","enable":"go1.26.8 test -tags verif (harness module /verif/go.mod replaces github.com/Flowpack/prunner with /repo)","baseline_off_cmd":"cd /repo && GOFLAGS=-mod=mod GOPROXY=off GOSUMDB=off go test -vet=off -count=1 ./...","source_commits":hooks,"add_only":True},
